@@ -1,6 +1,8 @@
-(* C12: the width arithmetic of the formatter (prqlc/src/codegen/mod.rs), as repaired by commit c8b3817
-   ("... saturates its width arithmetic"; finding C12-N7): WriteOpt::consume_width / reset_line and the widening
-   loop of WriteSource::write_or_expand, written against the u16 primitives of Model/Checked.v.
+(* C12: the width arithmetic of the formatter (prqlc/src/codegen/mod.rs), as repaired by commits c8b3817
+   ("... saturates its width arithmetic"; finding C12-N7) and b4fb037 ("the formatter's indentation arithmetic
+   saturates instead of overflowing u16 at 32768 nesting levels"; finding C12-N12): WriteOpt::consume_width /
+   reset_line and the widening loop of WriteSource::write_or_expand, written against the u16 primitives of
+   Model/Checked.v.
    `tab` is the constant "  " of WriteOpt::default() (no other value is constructed in library code), so
    `self.tab.len() as u16` = 2.  `write` itself (the layout of a node) is NOT modelled here: the loop is stated
    over an arbitrary `write`.  Executable definitions only; lemmas in Proofs/WidthArithProofs.v. *)
@@ -13,7 +15,6 @@ Local Open Scope Z_scope.
 Record wopt := WOpt { max_width : Z; rem_width : Z; indent : Z }.
 Definition tab_len : Z := 2.
 Definition default_opt : wopt := WOpt 50 50 0.          (* WriteOpt::default(): max_width 50, rem_width 50, indent 0 *)
-Definition indent_max : Z := 32767.                     (* largest indent with tab_len * indent <= u16::MAX *)
 
 (* fn consume_width(&mut self, width: usize) -> Option<()> {
        if self.max_width == u16::MAX { return Some(()); }
@@ -30,14 +31,19 @@ Definition consume_width (o : wopt) (width : Z) : option wopt :=
        end.
 
 (* fn reset_line(&mut self) -> Option<()> {
-       let ident = self.tab.len() as u16 * self.indent;           -- unchecked u16 multiplication
-       self.rem_width = self.max_width.checked_sub(ident)?;  Some(()) } *)
+       let ident = (self.tab.len() as u16).saturating_mul(self.indent);      -- saturating since b4fb037
+       self.rem_width = self.max_width.checked_sub(ident)?;  Some(()) }
+   (`out` is kept as the result type so that "never panics" stays a statement about the model, not about its type) *)
 Definition reset_line (o : wopt) : out (option wopt) :=
-  bind (mul16 tab_len (indent o)) (fun ident =>
+  let ident := sat_mul16 tab_len (indent o) in
   Ret (match checked_sub16 (max_width o) ident with
        | Some r => Some (WOpt (max_width o) r (indent o))
        | None => None
-       end)).
+       end).
+
+(* opt.indent = opt.indent.saturating_add(1) / saturating_sub(1) around a nested layout (b4fb037; three places) *)
+Definition indent_in (o : wopt) : wopt := WOpt (max_width o) (rem_width o) (sat_add16 (indent o) 1).
+Definition indent_out (o : wopt) : wopt := WOpt (max_width o) (rem_width o) (Z.max 0 (indent o - 1)).
 
 (* the else-branch of write_or_expand:
        opt.max_width = opt.max_width.saturating_add(opt.max_width / 2);
